@@ -167,7 +167,7 @@ PROPS = {
     "C17": {
         "lean": ["FsnVerif.Props.C17"],
         "lean_support": ["FsnVerif.Proofs.KqLemmas", "FsnVerif.Model.Kqueue"],
-        "stages": [{"name": "kq", "cmd": "scratch:kq", "what": "C17"}],
+        "stages": [{"name": "kq", "cmd": "scratch:kq", "what": "C17", "session_ops": ["kqf", "reset"]}],
         "rule": KQ_RULE,
         "assumptions": ["the kqueue kernel interface is SIMULATED (kqsim/unix): EVFILT_VNODE knotes with EV_CLEAR coalescing, close-pipe EOF; "
                         "NOTE_* raised on the vnodes FreeBSD would; validated on every run by replaying the repository's testdata scripts against upstream's recorded kqueue/freebsd expectations (41 match, 25 skipped by their own require lines), not against a real BSD/macOS kernel (none available)"],
@@ -175,7 +175,7 @@ PROPS = {
     "C18": {
         "lean": ["FsnVerif.Props.C18"],
         "lean_support": ["FsnVerif.Model.Kqueue"],
-        "stages": [{"name": "kq", "cmd": "scratch:kq", "what": "C18"}],
+        "stages": [{"name": "kq", "cmd": "scratch:kq", "what": "C18", "session_ops": ["kqf", "reset"]}],
         "rule": KQ_RULE,
         "assumptions": ["as C17; event order within one kevent batch follows descriptor order in the simulation: events of one step are compared as multisets"],
     },
@@ -298,6 +298,10 @@ def differs(pid, impl, model):
         return (rc(fi.get("R")), fi.get("L"), fi.get("P")) != (rc(fm.get("R")), fm.get("L"), fm.get("P"))
     if pid == "C12":
         return (fi.get("W"), fi.get("P")) != (fm.get("W"), fm.get("P"))
+    if pid == "C17":   # full kqueue model: return class, the five tables, open descriptors, knotes, WatchList, the questions asked
+        return any(fi.get(k) != fm.get(k) for k in ("R", "T", "F", "K", "L", "B"))
+    if pid == "C18":   # full kqueue model: the sequence of events and errors delivered
+        return any(fi.get(k) != fm.get(k) for k in ("E", "X"))
     return impl != model
 
 
@@ -320,13 +324,16 @@ def compare(pid, stage, ops, impl, model):
         n = min(len([x for x in impl if x]), len([x for x in model if x]))
         crashed = ops[n] if n < len(ops) else "(unknown)"
         out.append({"op": crashed, "impl": "(process died while executing this op)", "model": model[n] if n < len(model) else ""})
-    sessioned = stage.get("sessions", False)
+    sessioned_all = stage.get("sessions", False)
+    session_ops = stage.get("session_ops")
     diverged = False
     cur_session = None
     import re as _re
     for o, a, b in zip(ops, impl, model):
         if not o:
             continue
+        toks = o.split(" ", 2)
+        sessioned = sessioned_all or (session_ops is not None and len(toks) > 1 and toks[1] in session_ops)
         if sessioned and " reset" in o[:16]:
             diverged = False
             m = _re.search(r"session=(\d+)", o)
@@ -368,12 +375,13 @@ def build_scratch(kind, sd, repo, verif, goenv, run):
         # build-tag line and three import paths rewritten
         import re
         t = os.path.join(verif, "kqsim")
-        for sub in ("unix", "intern", "fsn"):
+        for sub in ("unix", "intern", "fsn", "kqos"):
             os.makedirs(os.path.join(sd, sub), exist_ok=True)
         shutil.copy(os.path.join(t, "go.mod"), os.path.join(sd, "go.mod"))
         shutil.copy(os.path.join(t, "main.go.txt"), os.path.join(sd, "main.go"))
         shutil.copy(os.path.join(t, "unix", "unix.go.txt"), os.path.join(sd, "unix", "unix.go"))
         shutil.copy(os.path.join(t, "intern", "intern.go.txt"), os.path.join(sd, "intern", "intern.go"))
+        shutil.copy(os.path.join(t, "kqos", "kqos.go.txt"), os.path.join(sd, "kqos", "kqos.go"))
         shutil.copy(os.path.join(t, "fsn", "hooks.go.txt"), os.path.join(sd, "fsn", "hooks.go"))
         shutil.copy(os.path.join(t, "scripts.go.txt"), os.path.join(sd, "scripts.go"))
         shutil.copy(os.path.join(t, "script_deviations.json"), os.path.join(sd, "script_deviations.json"))
@@ -384,6 +392,9 @@ def build_scratch(kind, sd, repo, verif, goenv, run):
             src = re.sub(r"^//go:build [^\n]*\n", "//go:build linux\n", src, count=1)
             src = src.replace('"golang.org/x/sys/unix"', '"kqscratch/unix"')
             src = src.replace('"github.com/fsnotify/fsnotify/internal"', 'internal "kqscratch/intern"')
+            if f == "backend_kqueue.go":
+                # package os -> a forwarding stand-in that records every answer on the oracle tape
+                src = src.replace('\t"os"\n', '\tos "kqscratch/kqos"\n', 1)
             open(os.path.join(sd, "fsn", f), "w").write(src)
     else:
         return 2, "unknown scratch kind " + kind
